@@ -467,7 +467,6 @@ func checkC12C(c any) *ev.Verdict {
 
 var _ = big.NewInt
 
-
 // dupRemaining inserts a copy of the `remaining` item of one allotment (source or
 // destination) at another position of the same allotment.
 func dupRemaining(t *rapid.T, s *gen.Script) {
